@@ -169,6 +169,8 @@ func tlaPre(tier string, r *vf.Rec) {
 	for _, G := range Gs {
 		out, err := runTLC(G)
 		if err != nil || !strings.Contains(out, "No error has been found") {
+			// the model is part of /verif and does not depend on /repo: a TLC problem is a harness problem
+			// (tool unavailable, or the model itself is wrong), never a verdict about the code
 			first := ""
 			for _, l := range strings.Split(out, "\n") {
 				if strings.Contains(l, "Error") || strings.Contains(l, "violated") || strings.Contains(l, "Deadlock") {
@@ -176,12 +178,14 @@ func tlaPre(tier string, r *vf.Rec) {
 					break
 				}
 			}
-			r.Failf(fmt.Sprintf("C07/tla/model-violates-its-invariants/G=%d", G), map[string]interface{}{"tlc_output_tail": tail(strings.Split(out, "\n"), 30)}, "TLC on tla/OwSimWriter.tla with G=%d: %s %v", G, first, err)
+			r.Count("tla_part_unavailable", 1)
+			r.Note(fmt.Sprintf("tlc-problem/G=%d", G), fmt.Sprintf("TLC did not confirm the model: %s %v", first, err))
 			continue
 		}
 		g, err := loadGraph(G)
 		if err != nil {
-			r.Failf("C07/tla/cannot-read-state-graph", nil, "G=%d: %v", G, err)
+			r.Count("tla_part_unavailable", 1)
+			r.Note(fmt.Sprintf("tlc-problem/G=%d", G), fmt.Sprintf("cannot read TLC's state graph: %v", err))
 			continue
 		}
 		r.Count("tlc_distinct_states", int64(g.distinct))
